@@ -7,7 +7,7 @@ from hypothesis import strategies as st
 import dadi
 from dadi import Misc
 from harness import gens
-from harness.core import Registry, Violation, dadi_call, require, require_close
+from harness.core import as_container, Registry, Violation, dadi_call, require, require_close
 from harness.refs import folding, hypergeom, popindex
 
 logging.getLogger('Spectrum_mod').setLevel(logging.ERROR)
@@ -64,13 +64,13 @@ def r1(case, rec):
     data, mask = gens.arrays(c)
     mask.flat[0] = mask.flat[-1] = True
     data.flat[0] = data.flat[-1] = 0.0
-    fs = dadi.Spectrum(data, mask=mask, mask_corners=False, pop_ids=c['pop_ids'])
+    fs = gens.relayout(dadi.Spectrum(data, mask=mask, mask_corners=False, pop_ids=c['pop_ids']), c.get('layout', 'C'))
     over = sorted(case['over'])
     keep = [a for a in range(data.ndim) if a not in over]
     rec.case(case, _nt(c), _lab(c) + [case['via'], 'drop=%d' % len(over)])
     with dadi_call(case['via']):
         if case['via'] == 'marginalize':
-            out = fs.marginalize(list(case['over']))
+            out = fs.marginalize(as_container(case['over'], len(case['over']) + sum(case['over'])))
         else:
             out = fs.filter_pops([a + 1 for a in keep])
     exp = popindex.marginalize(data, over)
@@ -102,7 +102,7 @@ def r2(case, rec):
     data, mask = gens.arrays(c)
     mask.flat[0] = mask.flat[-1] = True
     data.flat[0] = data.flat[-1] = 0.0
-    fs = dadi.Spectrum(data, mask=mask, mask_corners=False, pop_ids=c['pop_ids'])
+    fs = gens.relayout(dadi.Spectrum(data, mask=mask, mask_corners=False, pop_ids=c['pop_ids']), c.get('layout', 'C'))
     over = sorted(case['over'])
     rec.case(case, _nt(c), _lab(c))
     with dadi_call('fold/marginalize'):
@@ -141,7 +141,7 @@ def r3(case, rec):
     perm = case['perm']
     rec.case(case, _nt(c) and perm != sorted(perm), _lab(c))
     with dadi_call('reorder_pops'):
-        out = fs.reorder_pops([p + 1 for p in perm])
+        out = fs.reorder_pops(as_container([p + 1 for p in perm], sum(perm[:2]) + len(perm)))
     gens.fs_equal(out, popindex.reorder(data, perm), popindex.reorder(mask.astype(float), perm).astype(bool), 0.0, 'reordered spectrum', rec)
     elab = [c['pop_ids'][p] for p in perm] if c['pop_ids'] else None
     require(out.pop_ids == elab, 'labels after reorder %s: %r expected %r' % (perm, out.pop_ids, elab))
@@ -250,7 +250,7 @@ def r5(case, rec):
     """Misc.combine_pops (2-D/3-D helper: merged population first) agrees with the oracle and with Spectrum.combine_pops."""
     c = case['fs']
     data, mask = gens.arrays(c)
-    fs = dadi.Spectrum(data, mask_corners=True, pop_ids=c['pop_ids'])
+    fs = gens.relayout(dadi.Spectrum(data, mask_corners=True, pop_ids=c['pop_ids']), c.get('layout', 'C'))
     idx = case['idx']
     rec.case(case, _nt(c), ['dim=%d' % data.ndim, 'idx=%s' % idx])
     with dadi_call('Misc.combine_pops'):
@@ -284,7 +284,7 @@ def r6(case, rec):
     c = case['fs']
     data, mask = gens.arrays(c)
     data.flat[0] = data.flat[-1] = 0.0
-    fs = dadi.Spectrum(data, mask_corners=True, pop_ids=c['pop_ids'])
+    fs = gens.relayout(dadi.Spectrum(data, mask_corners=True, pop_ids=c['pop_ids']), c.get('layout', 'C'))
     rec.case(case, _nt(c), _lab(c))
     if c['folded']:
         src = fs.fold()
